@@ -602,7 +602,7 @@ class Node:
             if deep is None:
                 deep = True
             topnodes = child._root.children
-            if isinstance(before, (int, Node)) or before is True:
+            if isinstance(before, (int, Node)) and before is not False:
                 topnodes = topnodes[::-1]
             for n in topnodes:
                 self.add_child(n, before=before, deep=deep)
